@@ -276,6 +276,59 @@ func genCurveCase(r *Rng) (curveCase, bool) {
 	return cc, true
 }
 
+// tall narrow shafts joined by wide thin slabs that carry the path far to the other side: the shortest path has a long
+// shallow stretch next to steep ones, so the fitted cubics swing vertically by much more than a slab is high
+func genZigzagCorridor(r *Rng) corridor {
+	c := corridor{Class: "inside"}
+	y := 0.0
+	x := float64(8 * (40 + r.Intn(40)))
+	dir := -1.0
+	if r.Bool(50) {
+		dir = 1
+	}
+	turns := 1 + r.Intn(2)
+	shaft := func() {
+		w, h := float64(8*(3+r.Intn(6))), float64(8*(8+r.Intn(20)))
+		c.Rects = append(c.Rects, autog.VerifRect{TLX: x, TLY: y, BRX: x + w, BRY: y + h})
+		y += h
+	}
+	shaft()
+	for t := 0; t < turns; t++ {
+		last := c.Rects[len(c.Rects)-1]
+		reach := float64(8 * (20 + r.Intn(50)))
+		slabs := 1 + r.Intn(2)
+		lo, hi := last.TLX, last.BRX
+		for k := 0; k < slabs; k++ {
+			h := float64(4 * (1 + r.Intn(8)))
+			if dir < 0 {
+				lo -= reach / float64(slabs)
+				hi -= float64(4 * r.Intn(3))
+			} else {
+				hi += reach / float64(slabs)
+				lo += float64(4 * r.Intn(3))
+			}
+			if lo < 0 {
+				lo = 0
+			}
+			c.Rects = append(c.Rects, autog.VerifRect{TLX: lo, TLY: y, BRX: hi, BRY: y + h})
+			y += h
+		}
+		// the next shaft at the far end of the last slab
+		w := float64(8 * (3 + r.Intn(6)))
+		if dir < 0 {
+			x = lo + float64(4*r.Intn(3))
+		} else {
+			x = hi - w - float64(4*r.Intn(3))
+		}
+		shaft()
+		dir = -dir
+	}
+	f, l := c.Rects[0], c.Rects[len(c.Rects)-1]
+	c.Start = [2]float64{f.TLX + 4*float64(1+r.Intn(int((f.BRX-f.TLX)/4)-1)), f.TLY}
+	c.End = [2]float64{l.TLX + 4*float64(1+r.Intn(int((l.BRX-l.TLX)/4)-1)), l.BRY}
+	return c
+}
+
 func runSpline(fs *flag.FlagSet, prop string, seed uint64, n int, out, file string) int {
 	r := NewRng(seed)
 	var res struct {
@@ -298,8 +351,14 @@ func runSpline(fs *flag.FlagSet, prop string, seed uint64, n int, out, file stri
 		res.Curves = append(res.Curves, cc)
 	}
 	stuck := 0
-	for i := 0; i < n && stuck < 4; i++ {
+	for i := 0; i < 3*n && stuck < 4; i++ {
 		c := genCorridor(r, "inside")
+		switch i % 3 {
+		case 1:
+			c = genZigzagCorridor(r)
+		case 2:
+			c = genStairCorridor(r)
+		}
 		sc := runSplineCase(c)
 		if sc.Outcome == 2 {
 			stuck++
